@@ -1180,4 +1180,30 @@ theorem named_bad_meets (cmd : Cmd) (pkg : Pkg) (fl : Flags) (v : ValidFacts pkg
           rw [hga] at hb
           cases hb
 
+
+/-! ### when the clean-up runs -/
+
+theorem cleanActiveOf_eq (pkg : Pkg) (fl : Flags) :
+    cleanActiveOf pkg fl = (!(specifiedOf fl || fl.sep) && aioOf pkg fl != "") := rfl
+
+/-- Clean is active only for a package-wide all-in-one command line: `-type=*` without `-file` and without `-sep` -/
+theorem cleanActive_star (fl : Flags) (aiofile : String) (h : cleanActiveWith fl aiofile = true) :
+    mode fl = some (.star false) := by
+  simp only [cleanActiveWith, Bool.and_eq_true, Bool.not_eq_true', Bool.or_eq_false_iff, bne_iff_ne, ne_eq] at h
+  obtain ⟨⟨hsp, hsep⟩, ha⟩ := h
+  by_cases hc : (fl.file == "" && fl.types.contains "*") = true
+  · simp only [Bool.and_eq_true, beq_iff_eq] at hc
+    have hne : fl.types.isEmpty = false := by
+      cases ht : fl.types with
+      | nil => simp [ht] at hc
+      | cons a r => rfl
+    have hstar : isStar fl.types = true := by
+      simp only [specifiedOf, hne, Bool.not_false, Bool.true_and, Bool.not_eq_false'] at hsp
+      exact hsp
+    have hts : fl.types = ["*"] := by simpa [isStar] using hstar
+    simp [mode, hts, hc.1, hsep]
+  · exfalso; apply ha
+    have hc' : ¬((fl.file == "") = true ∧ fl.types.contains "*" = true) := by simpa using hc
+    rw [if_neg hc']
+
 end ShootVerif.Cli
